@@ -35,16 +35,28 @@ def nontrivial(evs):
     return wrote and (junk or failed or edited)
 
 
+def select(behs, rnd):
+    """keep every behaviour that goes on after its first Apply (reconciliation of a converged table), and a
+    sample of the others (first Apply from a start kernel)"""
+    out = []
+    for b in behs:
+        ops = [o.get("op") for o in b]
+        first = ops.index("apply") if "apply" in ops else None
+        if (first is not None and first < len(ops) - 1) or rnd.random() < 0.15:
+            out.append(b)
+    return out
+
+
 DESIGN = [{"module": "MC_RTable", "cfg": "MC_quick.cfg", "thorough_cfg": "MC_thorough.cfg", "workers": 4,
            "heap": "4g", "timeout": 400, "thorough_timeout": 1700}]
 
 P = {
     "specdir": "reconcile_table",
     "design": DESIGN,
-    "gen": {"module": "Gen_RTable", "cfg": "Gen_cover.cfg", "thorough_cfg": "Gen_cover5.cfg", "workers": 1,
-            "max": 150, "thorough_max": 4000, "timeout": 400, "thorough_timeout": 1500},
+    "gen": {"module": "Gen_RTable", "cfg": "Gen_cover.cfg", "thorough_cfg": "Gen_cover5.cfg", "workers": 1, "select": select,
+            "max": 200, "thorough_max": 4000, "timeout": 400, "thorough_timeout": 1500},
     "driver": {"cmd": "rtable"},
-    "n_random": (60, 1500),
+    "n_random": (80, 1500),
     "trace": {"module": "T_RTable", "cfg": "T_RTable.cfg", "timeout": 900, "heap": "4g"},
     "chunk": 60000,
     "signature": signature,
